@@ -480,7 +480,7 @@ def mk(idp, outcomes, replies, **kw):
     dl = kw.get("delays")
     order = "" if not dl else "/d=" + ",".join("%g" % x for x in dl)
     th = f"/t{kw['threads']}" if kw.get("threads") else ""
-    pre = "/forced" if kw.get("preempt") else ""
+    pre = ("/forced" if kw.get("preempt") else "") + ("/fsfault" if kw.get("fs_fault") else "")
     return dict(id=f"{idp}/{sig}/{opts}{order}{th}{pre}", outcomes=tuple(outcomes), replies=rs, **kw)
 
 
@@ -521,6 +521,10 @@ def e2e_scenarios(tier: str, seed: int) -> list:
     out.append(mk("S6", ["stuck", "panic"], ["unknown", "sat_model"], early_exit=True, preempt="stuck-confirm"))
     out.append(mk("S6", ["stuck", "failflag"], ["unsat", "sat_model"], early_exit=True, preempt="stuck-confirm"))
     out.append(mk("S6", ["stuck", "panic"], ["unknown", "sat_model"], early_exit=False))
+    # S7: the failed query cannot be saved for debugging (file-system fault in the solver callback)
+    for n, r in enumerate(x for x in R if x not in ("sat_model", "unsat")):
+        out.append(mk("S7", ["panic", "success"], [r, None], fs_fault=True, early_exit=bool(n % 2)))
+        out.append(mk("S7", ["success", "failflag"], [None, r], fs_fault=True, cache_solver=bool(n % 2)))
     if tier == "thorough":
         RX = R + list(CE.REPLIES_EXTRA)
         for r in CE.REPLIES_EXTRA:
@@ -795,7 +799,7 @@ def confirm_mismatches(run, pending, casc, ma, pool, seen_keys):
             if kind == "e2e":
                 what = (f"run_test reports exit code {info2.get('observed_exitcode')} {info2.get('observed_label')} for "
                         f"outcomes {list(sc['outcomes'])} with scripted replies {[r and '>'.join(x for x in r if x) for r in sc['replies']]}"
-                        f"{' under --early-exit' if sc.get('early_exit') else ''}; the proved cascade applied to the "
+                        f"{' under --early-exit' if sc.get('early_exit') else ''}; the {'specified verdict table' if casc.source == 'specification table' else 'proved cascade'} applied to the "
                         f"multiset {info2.get('expected_counts')} gives {info2.get('predicted_exitcode')} "
                         f"{info2.get('predicted_label')}"
                         + (f" [{'; '.join(o2.get('errors') or [])[:160]}]" if o2.get("errors") else "")
@@ -911,6 +915,14 @@ def main(run):
                     pass
         n_e2e = n_main = 0
         if wanted(run, "e2e"):
+            if casc is None:
+                # run_test's verdict block was not recognised: the scripted runs of the real run_test are still judged,
+                # against the SPECIFIED verdict table
+                try:
+                    casc = CC.spec_cascade()
+                    run.extra["cascade_source"] = "specification fallback: run_test's verdict block was not recognised by the extractor"
+                except CC.Unrecognised:
+                    casc = None
             if casc is not None and ma is None:
                 # the exit-code arithmetic of _main could not be extracted: the process-level scenarios are still judged,
                 # against the SPECIFIED arithmetic (a test that did not run counts as failed)
